@@ -414,11 +414,11 @@ func runBatch(bin, prop string, seed uint64, n, chunk, workers int, deadline tim
 				cmd := exec.CommandContext(ctx, bin, args...)
 				// history runs are single-threaded simulations: one P keeps runtime-managed
 				// per-P state (sync.Pool) identical between a run and its replay. The
-				// environment is a swarm knob all the same: every fourth chunk runs with
+				// environment is a swarm knob all the same: every eighth chunk runs with
 				// four Ps (code paths selected by runtime.GOMAXPROCS/NumCPU, helper
 				// goroutines of the library); the trace records the setting for its replay.
 				procs := "1"
-				if chunk > 0 && (j.from/chunk)%4 == 3 {
+				if chunk > 0 && (j.from/chunk)%8 == 7 {
 					procs = "4"
 				}
 				cmd.Env = append(os.Environ(), "GOMAXPROCS="+procs)
